@@ -42,69 +42,105 @@ Proof.
 Qed.
 
 (* ---- kinds ---------------------------------------------------------------------------------- *)
-Section Kinds.
-Variable f : msg -> bool.
-Hypothesis f_dup_attr : forall y p a, f (emit y KDupAttr p a) = false.
-Hypothesis f_dup_variant : forall y p a, f (emit y KDupVariant p a) = false.
-Hypothesis f_plural : forall y p a, f (emit y KPlural p a) = false.
-Hypothesis f_css : forall e p t, f (mkmsg e p t KCss) = false.
-Hypothesis f_value : forall y p a, f (emit y KObsValue p a) = false /\ f (emit y KMissValue p a) = false.
-Hypothesis f_attr : forall y p a, f (emit y KMissAttr p a) = false /\ f (emit y KObsAttr p a) = false.
+Lemma Forall_map_kind : forall {A} (g : A -> msg) K l,
+  (forall x, m_kind (g x) = K) -> Forall (fun m => m_kind m = K) (map g l).
+Proof. intros A g K l H. induction l as [|x l IH]; simpl; constructor; auto. Qed.
 
-Lemma filter_dup_attr : forall attrs, filter f (dup_attr_msgs attrs) = [].
-Proof. intro. unfold dup_attr_msgs. apply filter_map_none. intros [[b p] n]. apply f_dup_attr. Qed.
+Lemma dup_attr_kind : forall attrs, Forall (fun m => m_kind m = KDupAttr) (dup_attr_msgs attrs).
+Proof. intro. unfold dup_attr_msgs. apply Forall_map_kind. intros [[b p] n]. reflexivity. Qed.
 
-Lemma filter_check_variants : forall known keys, filter f (check_variants known keys) = [].
+Lemma dup_variant_kind : forall keys, Forall (fun m => m_kind m = KDupVariant) (dup_variant_msgs keys).
+Proof. intro. unfold dup_variant_msgs. apply Forall_map_kind. intros [[b p] n]. reflexivity. Qed.
+
+Lemma plural_kind : forall known keys, Forall (fun m => m_kind m = KPlural) (plural_msgs known keys).
 Proof.
-  intros. unfold check_variants. rewrite filter_app.
-  assert (H1 : filter f (dup_variant_msgs keys) = []).
-  { unfold dup_variant_msgs. apply filter_map_none. intros [[b p] k]. apply f_dup_variant. }
-  rewrite H1. simpl. unfold plural_msgs.
-  destruct known as [[|c kp]|]; try reflexivity.
-  destruct (existsb _ _); [|reflexivity].
-  destruct (sorted_set _); [reflexivity|]. destruct keys as [|[k p0] keys]; [reflexivity|].
-  simpl. rewrite f_plural. reflexivity.
+  intros. unfold plural_msgs. destruct known as [[|c kp]|]; try constructor.
+  destruct (existsb _ _); [|constructor].
+  destruct (sorted_set _); [constructor|]. destruct keys as [|[k p0] keys]; constructor; [reflexivity|constructor].
 Qed.
 
-Lemma filter_check_style : forall d m e, filter f (fst (check_style d m e)) = [].
+Lemma check_style_kind : forall d m e, Forall (fun x => m_kind x = KCss) (fst (check_style d m e)).
 Proof.
   intros d m e. unfold check_style.
-  destruct m as [[|x lm]|]; try (simpl; unfold emit; rewrite f_css; reflexivity).
-  destruct e as [[|y es]|]; try (simpl; unfold emit; rewrite f_css; reflexivity);
+  destruct m as [[|x lm]|]; try (constructor; [reflexivity|constructor]).
+  destruct e as [[|y es]|]; try (constructor; [reflexivity|constructor]);
     destruct (css_l10n_loop (x :: lm) d []) as [d' msgs]; simpl;
-    destruct (fold_left _ d' msgs); simpl; rewrite ?f_css; reflexivity.
+    destruct (fold_left _ d' msgs); constructor; try reflexivity; constructor.
 Qed.
 
-Lemma filter_lstyle : forall a rc, filter f (fst (lstyle a rc)) = [].
+Lemma lstyle_kind : forall a rc, Forall (fun x => m_kind x = KCss) (fst (lstyle a rc)).
 Proof.
-  intros a rc. unfold lstyle. destruct (negb _); [reflexivity|].
-  destruct (pattern_variants _); [|reflexivity]. destruct (parse_css_spec _) as [m e].
-  destruct rc as [|[d|]]; simpl; try apply filter_check_style.
-  pose proof (filter_check_style d m e) as H. destruct (check_style d m e). exact H.
+  intros a rc. unfold lstyle. destruct (negb _); [constructor|].
+  destruct (pattern_variants _); [|constructor]. destruct (parse_css_spec _) as [m e].
+  destruct rc as [|[d|]]; simpl; try apply check_style_kind.
+  pose proof (check_style_kind d m e) as H. destruct (check_style d m e). exact H.
 Qed.
 
-Lemma filter_value_msgs : forall R l, filter f (value_msgs R l) = [].
+Section Kinds.
+Variable kf : kind -> bool.
+Hypothesis kf_css : kf KCss = false.
+Hypothesis kf_value : kf KObsValue = false /\ kf KMissValue = false.
+Hypothesis kf_attr : kf KMissAttr = false /\ kf KObsAttr = false.
+
+Lemma filter_all_kind : forall K l,
+  Forall (fun m => m_kind m = K) l -> filter (by_kind kf) l = if kf K then l else [].
 Proof.
-  intros. unfold value_msgs. destruct (e_value l) as [[vp p]|], (r_has_value R); simpl; try reflexivity.
-  - destruct (f_value y_obsolete_value vp []) as [-> _]. reflexivity.
-  - destruct (f_value y_missing_value 0 []) as [_ ->]. reflexivity.
+  intros K l H. induction H as [|x l Hx Hl IH]; simpl; [destruct (kf K); reflexivity|].
+  unfold by_kind at 1. rewrite Hx, IH. destruct (kf K); reflexivity.
 Qed.
 
-Lemma filter_attr_msgs : forall rpos lpos, filter f (attr_msgs rpos lpos) = [].
+Lemma filter_dup_attr : forall attrs,
+  filter (by_kind kf) (dup_attr_msgs attrs) = if kf KDupAttr then dup_attr_msgs attrs else [].
+Proof. intro. apply filter_all_kind, dup_attr_kind. Qed.
+
+Lemma filter_check_variants : forall known keys,
+  filter (by_kind kf) (check_variants known keys) =
+  (if kf KDupVariant then dup_variant_msgs keys else [])
+  ++ (if kf KPlural then plural_msgs known keys else []).
 Proof.
-  intros. unfold attr_msgs. rewrite filter_app, !filter_flat_map.
-  rewrite !flat_map_nil; [reflexivity | |]; intros [n p]; simpl; destruct (dhas _ _ _); simpl; try reflexivity.
-  - destruct (f_attr y_obsolete_attribute p [n]) as [_ ->]. reflexivity.
-  - destruct (f_attr y_missing_attribute 0 [n]) as [-> _]. reflexivity.
+  intros. unfold check_variants.
+  rewrite filter_app, (filter_all_kind _ _ (dup_variant_kind keys)),
+    (filter_all_kind _ _ (plural_kind known keys)). reflexivity.
+Qed.
+
+Lemma filter_lstyle : forall a rc, filter (by_kind kf) (fst (lstyle a rc)) = [].
+Proof. intros. rewrite (filter_all_kind _ _ (lstyle_kind a rc)), kf_css. reflexivity. Qed.
+
+Lemma filter_value_msgs : forall R l, filter (by_kind kf) (value_msgs R l) = [].
+Proof.
+  intros. destruct kf_value as [H1 H2]. unfold value_msgs.
+  destruct (e_value l) as [[vp p]|], (r_has_value R); simpl; unfold by_kind; simpl;
+    rewrite ?H1, ?H2; reflexivity.
+Qed.
+
+Lemma filter_attr_msgs : forall rpos lpos, filter (by_kind kf) (attr_msgs rpos lpos) = [].
+Proof.
+  intros. destruct kf_attr as [H1 H2]. unfold attr_msgs. rewrite filter_app, !filter_flat_map.
+  rewrite !flat_map_nil; [reflexivity | |]; intros [n p]; simpl; destruct (dhas _ _ _); simpl;
+    unfold by_kind; simpl; rewrite ?H1, ?H2; reflexivity.
 Qed.
 
 Lemma filter_attr_stream : forall known R attrs rc,
-  filter f (attr_stream known R attrs rc) =
-  flat_map (fun a => filter f (flat_map (ev_msg known (dict_at (Some (a_name a)) (r_refs R)))
-                                        (walk_pattern false (a_value a)))) attrs.
+  filter (by_kind kf) (attr_stream known R attrs rc) =
+  flat_map (fun a => filter (by_kind kf) (flat_map (ev_msg known (dict_at (Some (a_name a)) (r_refs R)))
+                                                  (walk_pattern false (a_value a)))) attrs.
 Proof.
   intros known R attrs. induction attrs as [|a attrs IH]; intro rc; simpl; [reflexivity|].
   rewrite !filter_app, filter_lstyle, IH. reflexivity.
+Qed.
+
+(* everything but the event handlers and the missing references *)
+Lemma filter_check_message : forall known r l,
+  filter (by_kind kf) (check_message known r l) =
+  (if kf KDupAttr then dup_attr_msgs (e_attrs l) else [])
+  ++ filter (by_kind kf) (flat_map (ev_msg known (dict_at None (r_refs (rvisit r)))) (events_of_value false l))
+  ++ flat_map (fun a => filter (by_kind kf)
+                          (flat_map (ev_msg known (dict_at (Some (a_name a)) (r_refs (rvisit r))))
+                                    (walk_pattern false (a_value a)))) (e_attrs l)
+  ++ filter (by_kind kf) (missing_ref_msgs (r_refs (rvisit r)) (l_refs (lvisit known (rvisit r) l))).
+Proof.
+  intros. rewrite check_message_msgs, !filter_app.
+  rewrite filter_dup_attr, filter_attr_stream, filter_value_msgs, filter_attr_msgs. reflexivity.
 Qed.
 End Kinds.
 
@@ -121,7 +157,7 @@ Lemma fold_rvisit_attr_dict : forall attrs st k,
 Proof.
   induction attrs as [|a attrs IH]; intros st k.
   - destruct k; reflexivity.
-  - simpl fold_left at 1. rewrite IH, rvisit_attr_eq. simpl r_refs.
+  - simpl fold_left at 1. rewrite IH, rvisit_attr_eq. simpl r_refs. unfold refdict in *.
     destruct k as [n|]; simpl attr_events.
     + destruct (str_eqb (a_name a) n) eqn:E.
       * apply str_eqb_eq in E. subst n. rewrite dict_at_dset_same, fold_left_app. reflexivity.
@@ -223,7 +259,7 @@ Qed.
 Lemma set_add_NoDup : forall x acc, NoDup acc -> NoDup (set_add x acc).
 Proof.
   intros. unfold set_add. destruct (mem_str x acc) eqn:E; [assumption|].
-  apply mem_str_false in E. apply NoDup_app_remove_l with (l := []). simpl.
+  apply mem_str_false in E.
   apply Permutation_NoDup with (l := x :: acc); [apply Permutation_cons_append | constructor; assumption].
 Qed.
 
@@ -294,9 +330,9 @@ Proof.
               ([], dup_attr_msgs (e_attrs l))) as [s ms]. simpl in Hf. subst s.
   simpl l_refs. rewrite fold_lvisit_attr_set. simpl l_refs.
   rewrite fold_set_add_In. unfold ref_names. destruct k as [m|].
-  - rewrite ev_name_refs, attr_events_refs. unfold dict_at. simpl. tauto.
+  - rewrite !ev_name_refs, attr_events_refs. unfold dict_at. simpl. tauto.
   - simpl attr_events. simpl flat_map. unfold dict_at. simpl.
-    rewrite fold_set_add_In, ev_name_refs. simpl.
+    rewrite fold_set_add_In, !ev_name_refs. simpl.
     unfold value_refs, events_of_value, pattern_refs. destruct (e_value l) as [[vp p]|]; simpl; tauto.
 Qed.
 
@@ -310,7 +346,7 @@ Proof.
   intros known rr e. destruct e as [p id attr|p id [a|]|keys]; simpl; try reflexivity.
   - unfold obsolete_ref, ref_name. simpl. destruct (dhas _ _ _); reflexivity.
   - unfold obsolete_ref, ref_name. simpl. destruct (dhas _ _ _); reflexivity.
-  - apply filter_check_variants; reflexivity.
+  - unfold is_obsolete_ref. rewrite filter_check_variants. reflexivity.
 Qed.
 
 Lemma filter_obs_events : forall known r k evs,
@@ -332,10 +368,9 @@ Qed.
 Theorem obsolete_refs_exact : forall known r l,
   filter is_obsolete_ref (check_message known r l) = obsolete_spec r l.
 Proof.
-  intros known r l. rewrite check_message_msgs. rewrite !filter_app.
-  rewrite filter_dup_attr, filter_attr_stream, filter_value_msgs, filter_attr_msgs, filter_obs_missing;
-    try reflexivity; try (intros; split; reflexivity).
-  rewrite !app_nil_r. simpl. unfold obsolete_spec. f_equal.
+  intros known r l. unfold is_obsolete_ref.
+  rewrite filter_check_message by (try split; reflexivity).
+  fold is_obsolete_ref. rewrite filter_obs_missing, app_nil_r. simpl. unfold obsolete_spec. f_equal.
   - rewrite filter_obs_events. unfold value_refs, events_of_value, pattern_refs.
     destruct (e_value l) as [[vp p]|]; reflexivity.
   - apply flat_map_ext. intro a. apply filter_obs_events.
@@ -347,7 +382,7 @@ Proof.
   intros [p id attr|p id [a|]|keys]; simpl; try reflexivity.
   - unfold obsolete_ref. destruct (dhas _ _ _); reflexivity.
   - unfold obsolete_ref. destruct (dhas _ _ _); reflexivity.
-  - apply filter_check_variants; reflexivity.
+  - unfold is_missing_ref. rewrite filter_check_variants. reflexivity.
 Qed.
 
 Lemma filter_miss_missing : forall rrefs lrefs,
@@ -361,9 +396,9 @@ Qed.
 Theorem missing_refs_exact : forall known r l,
   filter is_missing_ref (check_message known r l) = missing_spec r l.
 Proof.
-  intros known r l. rewrite check_message_msgs. rewrite !filter_app.
-  rewrite filter_dup_attr, filter_miss_ev, filter_attr_stream, filter_value_msgs, filter_attr_msgs,
-    filter_miss_missing; try reflexivity; try (intros; split; reflexivity).
+  intros known r l. unfold is_missing_ref.
+  rewrite filter_check_message by (try split; reflexivity).
+  fold is_missing_ref. rewrite filter_miss_ev, filter_miss_missing.
   rewrite (flat_map_nil (fun a => filter is_missing_ref _)) by (intro a; apply filter_miss_ev).
   simpl. unfold missing_ref_msgs, missing_spec.
   rewrite (assoc_normal (r_refs (rvisit r))) at 1 by (rewrite rvisit_keys; apply ref_keys_NoDup).
@@ -373,6 +408,10 @@ Proof.
 Qed.
 
 (* what ref_dict holds: each referenced name once, with the type of its last occurrence *)
+Lemma find_app' : forall {A} (f : A -> bool) a b,
+  find f (a ++ b) = match find f a with Some x => Some x | None => find f b end.
+Proof. intros A f a b. induction a as [|x a IH]; simpl; [reflexivity|]. destruct (f x); [reflexivity | exact IH]. Qed.
+
 Lemma fold_ref_dict_get : forall refs (d : refdict) n,
   dget str_eqb n (fold_left (fun d x => dset str_eqb (ref_name x) (snd x) d) refs d) =
   match find (fun x => str_eqb n (ref_name x)) (rev refs) with
@@ -381,7 +420,7 @@ Lemma fold_ref_dict_get : forall refs (d : refdict) n,
   end.
 Proof.
   induction refs as [|x refs IH]; intros d n; simpl; [reflexivity|].
-  rewrite IH, find_app.
+  rewrite IH, find_app'.
   destruct (find _ (rev refs)); [reflexivity|]. simpl.
   destruct (str_eqb n (ref_name x)) eqn:E.
   - apply str_eqb_eq in E. subst. apply str_dget_dset_same.
